@@ -296,6 +296,41 @@ def rule_cursor(u, rep):
             rep.oblige(ok)
             if not ok:
                 rep.add("CUR-ACC", nm, "AlignedCursor::%s returns %s instead of the %s field" % (nm, label(p.value), field), b.loc())
+    b = ms.get("is_empty")
+    if b is not None:
+        ip, paths = run(u, b, sv, byref=False)
+        for p in paths:
+            n += 1
+            ok = p.kind == "ret" and p.value in (("bin", "Eq", OL, C(0)), ("bin", "Eq", C(0), OL), ("bin", "Le", OL, C(0)), ("bin", "Lt", OL, C(1)))
+            rep.oblige(ok)
+            if not ok:
+                rep.add("CUR-ACC", "is_empty", "AlignedCursor::is_empty must be `len == 0`; it returns %s" % label(p.value)[:120], b.loc())
+    # a fresh cursor is the empty vector at position 0: nothing allocated counts as data
+    for nm in ("new", "default", "with_capacity"):
+        b = ms.get(nm)
+        if b is None:
+            continue
+        ip, paths = run(u, b, sv, byref=False)
+        for p in paths:
+            if p.kind != "ret":
+                continue
+            n += 1
+            v = p.value
+            ok = isinstance(v, tuple) and v and v[0] == "adt" and v[1] == aid and fld(v, aj, "pos") == C(0) and fld(v, aj, "len") == C(0)
+            vv = fld(v, aj, "vec") if ok else None
+            ok = ok and isinstance(vv, tuple) and vv and vv[0] == "vec" and vv[2] == C(0)
+            rep.oblige(ok)
+            if not ok:
+                rep.add("CUR-ACC", nm, "AlignedCursor::%s must build an empty cursor (no elements, length 0, position 0); it builds %s" % (nm, label(v)[:160]), b.loc())
+    b = ms.get("into_parts")
+    if b is not None:
+        ip, paths = run(u, b, sv, byref=False)
+        for p in paths:
+            n += 1
+            ok = p.kind == "ret" and p.value == ("tuple", (OV, OL))
+            rep.oblige(ok)
+            if not ok:
+                rep.add("CUR-ACC", "into_parts", "AlignedCursor::into_parts must hand out the storage as it is and the length (std's into_inner returns the whole vector): it returns %s" % label(p.value)[:160], b.loc())
     b = ms.get("set_position")
     if b is not None:
         ip, paths = run(u, b, sv)
@@ -395,4 +430,175 @@ def rule_psub(u, rep, file_suffix="utils/aligned_cursor.rs"):
                         seen.add(key)
                         rep.add("SUB", "%s:%s-%s" % (b.n.split("::")[-1], label(a)[:30], label(bb)[:30]), "`%s`: `%s - %s` can underflow: no condition on the path establishes %s >= %s" % (b.n, label(a), label(bb), label(a), label(bb)), e[2])
     rep.count("subtractions_checked", n)
+    return n
+
+
+# ---------------------------------------------------------------------------------------------------------------
+# CUR-BOUNDS: every indexing of the storage is inside the storage, on every path, for every state
+class _Unk(Exception):
+    pass
+
+
+_M64 = (1 << 64) - 1
+
+
+def _ev(x, env, depth=0):
+    """Constant-fold a symbolic value of a cursor path under a concrete state. Raises _Unk on anything outside the
+    integer vocabulary (the grid point is then left undecided)."""
+    if depth > 40:
+        raise _Unk()
+    if isinstance(x, bool):
+        return int(x)
+    if isinstance(x, int):
+        return x
+    if not isinstance(x, tuple) or not x:
+        raise _Unk()
+    k = x[0]
+    if k == "c":
+        return x[1]
+    if x in env:
+        return env[x]
+    if k == "len":
+        a = x[1]
+        if a in env:
+            return env[a]
+        if isinstance(a, tuple) and a and a[0] == "mutated" and a[1] == "resize":
+            return _ev(a[3][0], env, depth + 1)
+        if isinstance(a, tuple) and a and a[0] == "rawslice":
+            return _ev(a[4], env, depth + 1)
+        if isinstance(a, tuple) and a and a[0] == "index" and isinstance(a[2], tuple) and a[2][0] == "adt":
+            f = dict(a[2][3])
+            nm = a[2][1]
+            base_len = _ev(("len", a[1]), env, depth + 1)
+            if nm.endswith("::Range"):
+                return _ev(f[1], env, depth + 1) - _ev(f[0], env, depth + 1)
+            if nm.endswith("::RangeTo"):
+                return _ev(f[0], env, depth + 1)
+            if nm.endswith("::RangeFrom"):
+                return base_len - _ev(f[0], env, depth + 1)
+        raise _Unk()
+    if k == "sizeof":
+        return env["S"]
+    if k == "assoc" and x[2] == "MAX":
+        return _M64
+    if k == "un" and x[1] == "Not":
+        return int(not _ev(x[2], env, depth + 1))
+    if k == "cast":
+        return _ev(x[-1], env, depth + 1)
+    if k == "bin":
+        op = x[1]
+        a = _ev(x[2], env, depth + 1)
+        if op == "And" and not a:
+            return 0
+        if op == "Or" and a:
+            return 1
+        b = _ev(x[3], env, depth + 1)
+        if op in ("Div", "Rem") and b == 0:
+            raise _Unk()
+        r = {"Add": lambda: a + b, "Sub": lambda: a - b, "Mul": lambda: a * b, "Div": lambda: a // b, "Rem": lambda: a % b,
+             "Eq": lambda: int(a == b), "Ne": lambda: int(a != b), "Lt": lambda: int(a < b), "Le": lambda: int(a <= b),
+             "Gt": lambda: int(a > b), "Ge": lambda: int(a >= b), "And": lambda: int(bool(a) and bool(b)), "Or": lambda: int(bool(a) or bool(b)),
+             "BitAnd": lambda: a & b, "BitOr": lambda: a | b}.get(op)
+        if r is None:
+            raise _Unk()
+        v = r()
+        if v < 0 or v > _M64:
+            raise _Unk()                 # arithmetic overflow: a different exit (panic in debug), not this rule's business
+        return v
+    if k == "call":
+        nm = x[1]
+        args = [_ev(a, env, depth + 1) for a in x[2]]
+        if nm == "min" and len(args) == 2:
+            return min(args)
+        if nm == "max" and len(args) == 2:
+            return max(args)
+        if nm == "saturating_sub":
+            return max(0, args[0] - args[1])
+        if nm == "saturating_mul":
+            return min(_M64, args[0] * args[1])
+        if nm == "saturating_add":
+            return min(_M64, args[0] + args[1])
+        if nm == "div_ceil" and args[1]:
+            return (args[0] + args[1] - 1) // args[1]
+        if nm == "next_multiple_of" and args[1]:
+            return ((args[0] + args[1] - 1) // args[1]) * args[1]
+        if nm == "clamp" and len(args) == 3:
+            return min(max(args[0], args[1]), args[2])
+        if nm in ("wrapping_add",):
+            return (args[0] + args[1]) & _M64
+        if nm in ("wrapping_sub",):
+            return (args[0] - args[1]) & _M64
+        raise _Unk()
+    raise _Unk()
+
+
+def _line(sp):
+    try:
+        return int(str(sp).split(":")[-2])
+    except Exception:
+        return None
+
+
+def rule_cursor_bounds(u, rep):
+    """For every method of AlignedCursor and every path: each indexing of the storage (`bytes[a..b]`) is evaluated, by
+    constant folding of the path's symbolic state, on a grid of concrete states (unit size 1 and 16; 0..3 allocated
+    units; positions around 0, the unit, the capacity and beyond it, and near usize::MAX; buffer lengths 0, 1, unit,
+    2*unit+1; length <= capacity). Where the path's conditions up to that point hold, the range must lie inside the
+    slice it indexes: std's cursor never panics on a write, read or seek, whatever the position."""
+    aid, c, aj = cursor_adt(u)
+    if aid is None:
+        return 0
+    ms = methods(u, aid)
+    sv = self_value(aid, aj)
+    n = 0
+    und = 0
+    for nm, b in sorted(ms.items()):
+        try:
+            ip, paths = run(u, b, sv)
+        except (interp.Unsupported, RecursionError):
+            continue
+        bufp = [p.get("pat", {}).get("name") for p in b.thir["params"] if not p.get("self")]
+        reported = False
+        for p in paths:
+            idx = [e for e in p.events if e[0] == "MayPanic" and e[1] == "index"]
+            if not idx:
+                continue
+            for e in idx:
+                base, rng = e[3]
+                if not (isinstance(rng, tuple) and rng and rng[0] == "adt" and "::ops::range::" in rng[1]):
+                    continue
+                f = dict(rng[3])
+                eline = _line(e[2])
+                conds = [cd for cd in p.conds if cd[0] in ("true", "false") and (_line(cd[2]) is None or eline is None or _line(cd[2]) <= eline)]
+                bad = None
+                for S in (1, 16):
+                    for V in (0, 1, 2, 3):
+                        cap = V * S
+                        for L in sorted(set([0, min(1, cap), cap])):
+                            for P in sorted(set([0, 1, S - 1, S, S + 1, 2 * S, cap, cap + 1, max(cap - 1, 0), 5 * S + 3, 100, _M64 - 1, _M64])):
+                                for B in (0, 1, S, 2 * S + 1):
+                                    env = {("old", "pos"): P, ("old", "len"): L, ("old", "vec"): V, "S": S}
+                                    for bn in bufp:
+                                        env[("param", bn)] = B
+                                    try:
+                                        if not all(bool(_ev(cd[1], env)) == (cd[0] == "true") for cd in conds):
+                                            continue
+                                        blen = _ev(("len", base), env)
+                                        nmr = rng[1]
+                                        lo = _ev(f[0], env) if (nmr.endswith("::Range") or nmr.endswith("::RangeFrom")) else 0
+                                        hi = _ev(f[1], env) if nmr.endswith("::Range") else (_ev(f[0], env) if nmr.endswith("::RangeTo") else blen)
+                                    except _Unk:
+                                        und += 1
+                                        continue
+                                    n += 1
+                                    if not (lo <= hi <= blen) and bad is None:
+                                        bad = (S, V, L, P, B, lo, hi, blen)
+                rep.oblige(bad is None)
+                if bad is not None and not reported:
+                    reported = True
+                    S, V, L, P, B, lo, hi, blen = bad
+                    rep.add("CUR-BOUNDS", nm, "AlignedCursor::%s indexes its storage with %d..%d where the storage has %d bytes (unit size %d, %d units allocated, length %d, position %d, buffer of %d bytes): it panics where std::io::Cursor returns normally"
+                            % (nm, lo, hi, blen, S, V, L, P, B), e[2])
+    rep.count("cursor_index_grid_points", n)
+    rep.count("cursor_index_grid_points_undecided", und)
     return n
